@@ -77,7 +77,7 @@ func (op *tagValuesLookup) findTagValueIDsByExpr(expr stmt.Expr) {
 			tagValueIDs = roaring.New()
 		}
 		// save atomic tag filter result
-		op.executeCtx.TagFilterResult[expr.Rewrite()] = &flow.TagFilterResult{
+		op.executeCtx.TagFilterResult[tagFilterKey(expr)] = &flow.TagFilterResult{
 			TagKeyID:    tagKeyID,
 			TagValueIDs: tagValueIDs,
 		}
@@ -93,6 +93,23 @@ func (op *tagValuesLookup) findTagValueIDsByExpr(expr stmt.Expr) {
 		}
 		op.findTagValueIDsByExpr(expr.Left)
 		op.findTagValueIDsByExpr(expr.Right)
+	}
+}
+
+// tagFilterKey returns the unambiguous key of an atomic tag filter in the tag filter result.
+// NOTE: cannot use Rewrite(), because different filters are rewritten to same text(key=~x: key='~x' or key=~'x').
+func tagFilterKey(expr stmt.Expr) string {
+	switch e := expr.(type) {
+	case *stmt.EqualsExpr:
+		return fmt.Sprintf("eq|%q|%q", e.Key, e.Value)
+	case *stmt.InExpr:
+		return fmt.Sprintf("in|%q|%q", e.Key, e.Values)
+	case *stmt.LikeExpr:
+		return fmt.Sprintf("like|%q|%q", e.Key, e.Value)
+	case *stmt.RegexExpr:
+		return fmt.Sprintf("regex|%q|%q", e.Key, e.Regexp)
+	default:
+		return expr.Rewrite()
 	}
 }
 
